@@ -32,6 +32,9 @@ RULE = ("outcome {pass, output mismatch, exception, expected exception, ExitTest
         "module inside a package, same with index=0}.  Every combination is non-trivial; distinct by (doctest text, "
         "on_error, verbosity)")
 ASSUMPTIONS = [
+    "sys.stdout replaced by the module under test at import time (xdoctest performs that import inside run) or by the "
+    "configured global_exec code is treated like a replacement by the doctest body; the same for sys.stderr is not "
+    "generated (xdoctest does not manage that stream, the property's quantifier names bodies that replace sys.stdout)",
     "interrupts are injected only at doctest statements (the property's quantifier), never inside xdoctest's own frames",
     "changes a doctest makes to sys.path, sys.stderr or the working directory itself are the doctest's business and are "
     "not generated; stdout and warning filters are generated because the library promises to contain them",
@@ -75,7 +78,8 @@ IMPORT_KINDS = ['good', 'raises', 'syntax', 'missing', 'packaged', 'packaged_ind
 def required_cells(tier):
     return (['outcome:' + k for k in OUTCOMES] + ['outcome:import_failure'] + ['flavour:' + f for f in FLAVOURS] +
             ['pos:' + p for p in POSITIONS] + ['on_error:return', 'on_error:raise', 'verbose:0', 'verbose:3', 'mode:native', 'mode:pytest'] +
-            ['import:' + k for k in IMPORT_KINDS] + ['loops-created-and-closed', 'result:returned', 'result:raised'] +
+            ['import:' + k for k in IMPORT_KINDS] + ['loops-created-and-closed', 'result:returned', 'result:raised', 'side-effect:module-import:stdout',
+             'side-effect:global_exec:stdout'] +
             (['dev-pass'] if tier == 'thorough' else []))
 
 
@@ -261,6 +265,46 @@ def check_imports(ctx):
                     ctx.cell('outcome:import_failure')
 
 
+SIDE_BODIES = {'pass': ['>>> print("a")', 'a'], 'mismatch': ['>>> print("a")', 'b'], 'exception': ['>>> raise ValueError("v")'],
+               'nowant': ['>>> x = 1'], 'expected_exc': ['>>> raise ValueError("v")', 'Traceback (most recent call last):',
+                                                          'ValueError: v']}
+
+
+def check_side_effect_sources(ctx):
+    """the stream is replaced not by the doctest body but by the module under test at import time (xdoctest does
+    that import itself, inside run) or by the configured global_exec code"""
+    from xdoctest import doctest_example
+    root = os.path.join(ctx.tmp, 'side_%d' % ctx.shard)
+    os.makedirs(root, exist_ok=True)
+    n = 0
+    for source in ('module-import', 'global_exec'):
+        # (sys.stderr is not generated here: xdoctest never swaps it, and a module that rebinds it at import time is
+        # outside the property's quantifier, which is about doctest bodies and the streams xdoctest manages)
+        for stream in ('stdout',):
+            for outcome, body in sorted(SIDE_BODIES.items()):
+                for on_error in ON_ERROR:
+                    n += 1
+                    case = {'kind': 'side-effect-source', 'source': source, 'stream': stream, 'outcome': outcome,
+                            'on_error': on_error}
+                    ctx.evaluation()
+                    ctx.nontrivial(('side', source, stream, outcome, on_error))
+                    modname = 'sidefx_%d_%d_zz' % (ctx.shard, n)
+                    path = os.path.join(root, modname + '.py')
+                    with open(path, 'w') as f:
+                        if source == 'module-import':
+                            f.write('import sys, io\nsys.%s = io.StringIO()\n' % stream)
+                        f.write('def host():\n    return 1\n')
+                    dt = doctest_example.DocTest('\n'.join(body), modpath=path, callname='host')
+                    dt.mode = 'native'
+                    if source == 'global_exec':
+                        dt.config['global_exec'] = 'import sys, io\\nsys.%s = io.StringIO()' % stream
+                    result, ok = monitored(ctx, 'DocTest.run(on_error=%r) with sys.%s replaced by %s' % (on_error, stream, source),
+                                           lambda: dt.run(on_error=on_error, verbose=0), case, open(path).read())
+                    sys.modules.pop(modname, None)
+                    if ok:
+                        ctx.cell('side-effect:%s:%s' % (source, stream))
+
+
 def all_combos():
     return list(itertools.product(sorted(OUTCOMES), sorted(FLAVOURS), POSITIONS, ON_ERROR, VERBOSE, MODES))
 
@@ -276,6 +320,8 @@ def run_shard(ctx):
             check_doctest(ctx, *combos[i])
     if ctx.shard in (0, 1):
         check_imports(ctx)
+    if ctx.shard in (2 % ctx.nshards, 3 % ctx.nshards):
+        check_side_effect_sources(ctx)
     if not ctx.quick() and ctx.shard == 0:
         dev_pass_from_parent(ctx)
 
@@ -352,6 +398,8 @@ def replay(case, ctx):
                       case.get('mode', 'native'))
     elif case['kind'] == 'devpass':
         dev_pass_from_parent(ctx)
+    elif case['kind'] == 'side-effect-source':
+        check_side_effect_sources(ctx)
     else:
         check_imports(ctx)
 
